@@ -27,6 +27,16 @@ def build_split(rng, depth, prefix, rel_dir):
             if mpath in files or any(mpath == q for q in files):
                 continue
             m_items, m_flat, m_files = build_split(rng, depth - 1, f"{prefix}Q{k}_", mdir)
+            if rng.random() < 0.2:
+                # a module that declares no type at all: only devices, or only bindings / services of structs declared before the import
+                # (a devices.fcp, a bindings.fcp): such a subset is as movable as any other
+                known = [it[1] for it in flat if it[0] == "struct"]
+                m_items = [("device", f"{prefix}Q{k}_dev", [("id", rng.randrange(9))])] if (not known or rng.random() < 0.5) else []
+                if known and rng.random() < 0.6:
+                    m_items.append(("impl", rng.choice(["can", "uart"]), rng.choice(known), f"{prefix}Q{k}_B", True, [("ext", "id", rng.randrange(2048))]))
+                if known and (not m_items or rng.random() < 0.4):
+                    m_items.append(("service", f"{prefix}Q{k}_Sv", rng.randint(0, 9), [("m0", rng.choice(known), 0, rng.choice(known))]))
+                m_flat, m_files = list(m_items), {}
             if any(q in files for q in m_files) or mpath in m_files:
                 continue
             # a binding that lives in another module than its struct: this module binds (unnamed, so under the struct's own
@@ -52,7 +62,7 @@ def run(chk):
     broken = chk.proof_obligations(["Corr/Front.vo"])
     chk.coverage["rule"] = (
         "a tree of module files (depth <= 3, dotted paths a.b.m resolved relative to the importing file) each holding self-contained front-profile "
-        "declarations (structs, enums, impls, services, devices), imported at random positions; the split schema is parsed from real files in a "
+        "declarations (structs, enums, impls, services, devices; a fifth of the modules declare no type at all), imported at random positions; the split schema is parsed from real files in a "
         "scratch directory and compared with the single-file schema obtained by inlining every module at its import point; then one error is "
         "injected (syntax error or unresolved type inside a module, or a missing module file) and the diagnostic must name the module / the file; "
         "every outcome is compared in Coq with the model; non-trivial = at least one import")
